@@ -5,6 +5,7 @@ mod c05;
 mod c06;
 mod c07;
 mod c08;
+mod c09;
 mod c12;
 mod c13;
 mod c14;
@@ -26,7 +27,7 @@ fn main() {
     let mut property = String::new();
     let mut tier = "quick".to_string();
     let mut seed: u64 = 1;
-    let mut runner = "/verif/.build/runner/model_run".to_string();
+    let mut runner = String::new();
     let mut out = String::new();
     let mut search = false;
     let mut only_case = None;
@@ -53,6 +54,7 @@ fn main() {
         "C20" => c20::run(&mut ctx),
         "C07" => c07::run(&mut ctx),
         "C08" => c08::run(&mut ctx),
+        "C09" => c09::run(&mut ctx),
         "C12" => c12::run(&mut ctx),
         "C06" => c06::run(&mut ctx),
         "C02" => c02::run(&mut ctx),
